@@ -112,6 +112,34 @@ def run(ctx: core.Ctx) -> int:
                    construct="writes:" + ";".join(sorted(w.kind + " " + w.target for w in ws)),
                    msg="prediction path is not side-effect free: " + "; ".join(f"{w.kind} {w.target} (line {w.line})" for w in ws),
                    line=ws[0].line if ws else None)
+    # module-level helpers the prediction path calls (assert_valid_covariance, force_to_ndarray, ...): same effect rule, so that a helper
+    # told to work in place (overwrite_a=True, out=<argument>) on the caller's array is a write on the prediction path
+    import ast as _ast
+    seen_h, todo_h = set(), []
+    for cname, mname in PURE:
+        c = core.find_class(mod, cname)
+        f = core.find_func(c, mname) if c else None
+        if f is not None:
+            todo_h.append(f)
+    n_help = 0
+    while todo_h:
+        f = todo_h.pop()
+        for n in _ast.walk(f):
+            if isinstance(n, _ast.Call) and isinstance(n.func, _ast.Name) and n.func.id not in seen_h:
+                h, hfile = core.find_func_imported(ctx, mod, n.func.id)
+                if h is None:
+                    continue
+                hfile = hfile or file
+                seen_h.add(n.func.id)
+                todo_h.append(h)
+                n_help += 1
+                ctx.functions.append(f"python.{h.name}")
+                ws = effects.writes(h)
+                ctx.oblige("PURE", f"{hfile}:{h.name}", f"{len(ws)} write effect(s)", not ws, file=hfile, func=h.name,
+                           construct="writes:" + ";".join(sorted(w.kind + " " + w.target for w in ws)),
+                           msg="helper on the prediction path is not side-effect free: " + "; ".join(f"{w.kind} {w.target} (line {w.line})" for w in ws),
+                           line=ws[0].line if ws else None)
+    ctx.note(f"PURE: {n_help} module-level helper(s) on the prediction path analysed")
     ctx.floor("ARR-MM", scenarios.count(it, "ARR-MM", "process_model"), 2, "matrix products in process_model")
     ctx.floor("ARR-EW", scenarios.count(it, "ARR-EW", "process_model"), 1, "sums in process_model")
     ctx.floor("COV-FORM", n_form, 1, "returned covariance forms")
@@ -123,6 +151,21 @@ def run(ctx: core.Ctx) -> int:
                      ("TRUST-SIG", "trusted sympy call signatures")):
         ctx.rule(_rid, _t)
     _tmp.check_python_block(ctx, it.p.modules["python"])
+    # what is compiled is the user's expression / its exact derivative: no sympy rewriting outside the CSE gate (shared with C01)
+    from . import c01 as _c01nr
+    _c01nr.py_no_rewrite(ctx, mod, "py/formak/python.py")
+    arg_pass(ctx, mod, cls, file)
+    from . import c13 as _c13nv
+    _c13nv.named_arrays(ctx, ("vec", "cov"))
+    # no module-level / class-level mutable state shared between filters: one filter's construction or update must not reach another's (shared with C01)
+    from . import c15 as _c15pp
+    ctx.rule("PY-PURE", "no module-level / class-level mutable state shared between filters (shared with C01)")
+    _c15pp.gen_pure(ctx, {"python": "py/formak/python.py", "common": "py/formak/common.py"}, rule="PY-PURE", floor=40)
+    return core.finish(ctx, explanation="E2 axis typing + E3 normal form of process_model's result, name-keyed noise table, "
+                                        "effect analysis of the prediction path", **META)
+
+
+def arg_pass(ctx, mod, cls, file):
     # ARG-PASS: the entry point hands what it was given to the filter's constructor as is.  The noise, the models and the symbolic model that
     # compile_ekf receives are the ones the filter is built from -- a "sanitised" / rounded / re-keyed copy (e.g. nearest_positive_definite(
     # process_noise), which floors small entries) makes the filter's M something other than the noise the user supplied by name.
@@ -155,11 +198,3 @@ def run(ctx: core.Ctx) -> int:
                                    f"{'noise matrix' if 'noise' in pname else 'model'} is no longer what the caller supplied by name",
                                line=calls[0].lineno)
     ctx.floor("ARG-PASS", npass, 4, "constructor arguments of the filter in python.compile_ekf")
-    from . import c13 as _c13nv
-    _c13nv.named_arrays(ctx, ("vec", "cov"))
-    # no module-level / class-level mutable state shared between filters: one filter's construction or update must not reach another's (shared with C01)
-    from . import c15 as _c15pp
-    ctx.rule("PY-PURE", "no module-level / class-level mutable state shared between filters (shared with C01)")
-    _c15pp.gen_pure(ctx, {"python": "py/formak/python.py", "common": "py/formak/common.py"}, rule="PY-PURE", floor=40)
-    return core.finish(ctx, explanation="E2 axis typing + E3 normal form of process_model's result, name-keyed noise table, "
-                                        "effect analysis of the prediction path", **META)
